@@ -135,7 +135,13 @@ class Check:
         n = 0
         for v in self.violations:
             doc = v.get("doc")
-            if not doc or doc.get("oracle") not in ("golden_equality", "self"):
+            if not doc:
+                continue
+            custom = getattr(mod, "minimise_doc", None)
+            pipeline_like = doc.get("oracle") in ("golden_equality", "self") or \
+                (str(doc.get("oracle", "")).startswith("module:") and isinstance(doc.get("run"), dict) and "args" in doc["run"]
+                 and "spec" in doc["run"]["args"])
+            if not pipeline_like and custom is None:
                 continue
             g = (v["clause"], json.dumps(v["attrs"], sort_keys=True))
             if g in done or n >= limit or self.time_left() < 30:
@@ -144,7 +150,10 @@ class Check:
             n += 1
             try:
                 relocate = getattr(mod, "relocate", None)
-                small, info = minimise.minimise(doc, orch, replay.evaluate, relocate=relocate, max_evals=max_evals)
+                if not pipeline_like:
+                    small, info = custom(doc, orch, max_evals=max_evals)
+                else:
+                    small, info = minimise.minimise(doc, orch, replay.evaluate, relocate=relocate, max_evals=max_evals)
                 small = dict(small)
                 small["minimisation"] = info
                 if info.get("minimised"):
